@@ -8,8 +8,28 @@ LEVEL = "model_checking"
 def run(rep, tier):
     wd = common.workdir("C01")
     quick = tier == "quick"
-    progs, n, kept = corepipe.gen_programs(rep, wd, "Core/Gen_C01", "Core/Gen_C01_quick" if quick else "Core/Gen_C01_thorough", "c01", keep=1500 if quick else 40000,
-                                            always=lambda p: p["n"] >= 64)
+    # quick: the small grid enumerated by TLC, seeded subset; thorough: the small grid in full plus behaviours drawn by
+    # TLC's simulator from the full grid (millions of points: Gen_C01S)
+    progs, n, kept = corepipe.gen_programs(rep, wd, "Core/Gen_C01", "Core/Gen_C01_quick", "c01", keep=1500 if quick else 0, always=lambda p: p["n"] >= 64)
+    if not quick:
+        import json
+        nsim = 40000
+        g = common.tlc("Core/Gen_C01S", cfg="Core/Gen_C01S", workers=1, wd=wd, simulate=nsim, depth=8, seed=common.seed(), timeout=3600)
+        common.tlc_must(g, "Gen_C01S")
+        seen, rows = set(), common.read_ndjson(progs)
+        for x in g.printed("PROG"):
+            if x not in seen:
+                seen.add(x)
+                rows.append(json.loads(json.loads(x)))
+        if len(seen) < nsim // 4:
+            raise common.ToolError("Gen_C01S produced %d programs\n%s" % (len(seen), g.out[-1500:]))
+        for i, row in enumerate(rows):
+            row["id"] = i + 1
+        common.write_ndjson(progs, rows)
+        rep.add_tlc(g, "gen:c01s")
+        rep.extra["programs_sampled_from_full_grid"] = len(seen)
+        kept = len(rows)
+        n += len(seen)
     events, bad = corepipe.run_and_validate(rep, wd, progs, "c01", shards=8 if quick else 12)
     nb = corepipe.report(rep, events, bad, {"sem"}, "c01")
     steps = [e for e in events if e["ev"] == "step"]
